@@ -66,6 +66,9 @@ def call_fn_value(ex, st, f, argvals):
         yield from _call_closure_paths(ex, st, f, argvals)
         return
     if fv[0] == "fn":
+        if any(r.search(fv[1]) for r in ex.no_inline):
+            yield st, ("call", fv[1], tuple(ex.canon(st, a) for a in argvals))
+            return
         cands = [g for g in (ex.facts.fns.get(fv[1]),) if g is not None]
         if cands:
             for s2, kind, val in ex.call_fn(cands[0], list(argvals), st, None):
@@ -73,6 +76,34 @@ def call_fn_value(ex, st, f, argvals):
                     yield s2, val
             return
     raise NotConcrete("callee %s" % (fv[0],))
+
+
+_DELEG = {}
+
+
+def delegating_field(ex, adt_path):
+    """index of the field f such that `<Adt as Iterator>::next(self)` is exactly `self.f.next()`, else None"""
+    if adt_path in _DELEG:
+        return _DELEG[adt_path]
+    res = None
+    from .symex import Symex, bare
+    import re
+    cands = [g for g in ex.facts.fns.values() if g.kind != "Closure" and g.path.endswith("as core::iter::traits::iterator::Iterator>::next")
+             and re.match(r"^<%s(<.*>)? as " % re.escape(adt_path), g.path)]
+    if len(cands) == 1:
+        try:
+            ps = [p for p in Symex(ex.facts, inline_crates=()).run(cands[0]) if p.kind == "ret"]
+            if len(ps) == 1 and not ps[0].pc:
+                m = re.match(r"^next\(a1\.(\w+)\)$", bare(ps[0].ret))
+                if m:
+                    adt = ex.facts.adts.get(adt_path)
+                    names = [f["name"] for f in adt["variants"][0]["fields"]] if adt else []
+                    if m.group(1) in names:
+                        res = names.index(m.group(1))
+        except Exception:
+            res = None
+    _DELEG[adt_path] = res
+    return res
 
 
 def step(ex, st, T):
@@ -93,6 +124,16 @@ def step(ex, st, T):
                 yield s2, None, ("cenum", inner2, n)
             else:
                 yield s2, ("tuple", (("const", n), it)), ("cenum", inner2, n + 1)
+        return
+    if k == "adt":
+        # a user-defined iterator struct whose `next` only forwards to the `next` of one of its fields (checked on its MIR)
+        fi = delegating_field(ex, T[1])
+        if fi is None:
+            raise NotConcrete("iterator struct %s" % T[1])
+        for s2, it, inner2 in step(ex, st, T[3][fi]):
+            fields = list(T[3])
+            fields[fi] = inner2
+            yield s2, it, ("adt", T[1], T[2], tuple(fields))
         return
     if k != "call":
         raise NotConcrete("iterator value %s" % (k,))
@@ -199,9 +240,39 @@ def step(ex, st, T):
                             yield from nxt(s4, inner2)
         yield from nxt(st, a[0])
         return
+    if m == "filter_map" and len(a) == 2:
+        def nxt2(s, inner):
+            for s2, it, inner2 in step(ex, s, inner):
+                if it is None:
+                    yield s2, None, ("call", T[1], (inner2, a[1]))
+                    continue
+                for s3, v in call_fn_value(ex, s2, a[1], [it]):
+                    for s4, payload in fork_option(ex, s3, v):
+                        if payload is None:
+                            yield from nxt2(s4, inner2)
+                        else:
+                            yield s4, payload, ("call", T[1], (inner2, a[1]))
+        yield from nxt2(st, a[0])
+        return
     if m in ("lines", "coords", "points", "rev_lines", "triangles"):
         raise NotConcrete("uninlined geo iterator %s" % m)
     raise NotConcrete("adaptor %s" % m)
+
+
+def fork_option(ex, st, v):
+    """yield (state, payload or None) for an Option-valued term, forking on its discriminant when it is symbolic"""
+    v = ex.canon(st, v)
+    if v[0] == "adt" and v[1].endswith("option::Option"):
+        yield st, (v[3][0] if v[2] == "Some" else None)
+        return
+    d = ("discr", v)
+    if d in st.pc:
+        yield st, (("field", ("as", v, "Some"), "0") if st.pc[d] == 1 else None)
+        return
+    for val in (0, 1):
+        s2 = st.clone()
+        s2.assume(d, val)
+        yield s2, (("field", ("as", v, "Some"), "0") if val == 1 else None)
 
 
 def drain_pure(ex, st, T):
